@@ -180,14 +180,6 @@ theorem unesc_iff (s t : Bytes) : Unesc s t ↔ specUnescape s = some t :=
 
 /-! ### ASCII strings: `asciiRuns`, `validUtf8`, `universalNewlines` -/
 
-theorem asciiRuns_ascii (s : Bytes) (h : s.all (fun c => decide (c.toNat < 0x80)) = true) :
-    asciiRuns s = [s] := by
-  induction s with
-  | nil => rfl
-  | cons c s ih =>
-    simp only [List.all_cons, Bool.and_eq_true, decide_eq_true_eq] at h
-    simp [asciiRuns, h.1, ih h.2]
-
 theorem plain_ascii {s : Bytes} (h : s.all plain = true) :
     s.all (fun c => decide (c.toNat < 0x80)) = true := by
   simp only [List.all_eq_true, plain, Bool.and_eq_true, decide_eq_true_eq] at h ⊢
@@ -198,9 +190,9 @@ theorem quote_plain (s : Bytes) : (quote s).all plain = true := by
   simp only [List.all_eq_true, Bool.and_eq_true] at this ⊢
   exact fun x hx => (this x hx).2
 
-theorem unquote_quote_exact (s : Bytes) (h : validUtf8 s = true) (h0 : (0 : UInt8) ∉ s) :
+theorem unquote_quote_exact (s : Bytes) (h0 : (0 : UInt8) ∉ s) :
     unquoteLossy (quote s) = false := by
-  simp [unquoteLossy, asciiRuns_ascii _ (plain_ascii (quote_plain s)), percentDecode_quote, h, h0]
+  simp [unquoteLossy, percentDecode_quote, h0]
 
 theorem validUtf8_ascii (s : Bytes) (h : s.all (fun c => decide (c.toNat < 0x80)) = true) :
     validUtf8 s = true := by
